@@ -619,6 +619,10 @@ def xr_checks(ck, acc, rng, nds):
             dpm = np.tile(c["dpm"][:P], (1, reps))[:, :T]
             wspd = np.tile(c["wspd"], reps)[:T]
             sites.append(dict(base, fp=fp, dpm=dpm, wspd=wspd))
+        if k % 2 == 1:
+            # a site with no wave systems at all: every identifier is the missing marker and the reported count is 0
+            dead = dict(base, fp=np.full((P, T), np.nan), dpm=np.full((P, T), np.nan), wspd=np.array(base["wspd"], dtype=float).copy())
+            sites[rng.randrange(1, nsite)] = dead
         times = mk_times(T, base["dt"])
         fp = xr.DataArray(np.stack([s["fp"] for s in sites]), dims=("site", "part", "time"),
                           coords=dict(site=np.arange(nsite), part=np.arange(P), time=times))
